@@ -229,6 +229,11 @@ func mergeInterfaces(previousDefinition *ast.Definition, newDefinition *ast.Defi
 		}
 	}
 
+	// make sure that the 2 directive lists are the same
+	if err := mergeDirectiveListsEqual(previousDefinition.Directives, newDefinition.Directives); err != nil {
+		return nil, err
+	}
+
 	return &prevCopy, nil
 }
 
@@ -368,6 +373,11 @@ func mergeEnums(previousDefinition *ast.Definition, newDefinition *ast.Definitio
 		}
 	}
 
+	// make sure that the 2 directive lists are the same
+	if err := mergeDirectiveListsEqual(previousDefinition.Directives, newDefinition.Directives); err != nil {
+		return nil, err
+	}
+
 	// we're done
 	return &prevCopy, nil
 }
@@ -381,6 +391,11 @@ func mergeUnions(previousDefinition *ast.Definition, newDefinition *ast.Definiti
 	}
 
 	if err := mergeStringSliceEquivalent(previousDefinition.Types, newDefinition.Types); err != nil {
+		return nil, err
+	}
+
+	// make sure that the 2 directive lists are the same
+	if err := mergeDirectiveListsEqual(previousDefinition.Directives, newDefinition.Directives); err != nil {
 		return nil, err
 	}
 
